@@ -32,7 +32,8 @@ trailing string-length dimension.
   it is a data (or domain) variable, or referenced by some variable, or declares
   itself a list / count / index variable (`compress`, `sample_dimension`,
   `instance_dimension`), or is the coordinate variable of a dimension that some
-  variable uses ("each construct is
+  variable uses or that a list variable names in `compress` (compression by gathering:
+  the coordinate variables of the compressed dimensions) ("each construct is
   encoded exactly once": nothing is written that nothing points to).
 
 The second half of the file is the abstract writer: the emission steps of
@@ -134,7 +135,8 @@ def needed (F : File) (v : Var) : Bool :=
   || v.refs.any (fun r => r.kind == .compress || r.kind == .sampleDim || r.kind == .instanceDim)
   || F.vars.any (fun w => w.refs.any (fun r => r.target == v.name
         && r.kind != .cellMethodAxis && r.kind != .compress && r.kind != .sampleDim && r.kind != .instanceDim))
-  || (v.dims == [v.name] && F.vars.any (fun w => w.name != v.name && w.dims.contains v.name))
+  || (v.dims == [v.name] && F.vars.any (fun w => w.name != v.name
+        && (w.dims.contains v.name || w.refs.contains ⟨.compress, v.name⟩)))
 
 def externalOK (F : File) (e : String) : Bool :=
   (F.var? e).isNone && F.vars.any (fun w => w.refs.contains ⟨.cellMeasures, e⟩)
